@@ -1,4 +1,6 @@
 """Clause sets of World A beyond C01 (C19 here; C02, C13, C15 below)."""
+from fractions import Fraction
+
 from sim import model as M
 from sim import registry
 from sim.world_a import ABSENT, Clauses
@@ -132,3 +134,210 @@ class C19Clauses(Clauses):
 
 
 TABLE = {"C19": [C19Clauses]}
+
+
+# ======================================================================
+# C02 — canonical objects / abelian-group laws up to identity
+# ======================================================================
+def single_base_int(mp):
+    return len(mp) <= 1 and all(e.denominator == 1 for _, e in mp)
+
+
+class IdentityTable(Clauses):
+    """normal form -> first object seen in this world (strong refs keep ids unique).
+    Every later value with that normal form must be the very same object."""
+
+    PROP = "C02"
+
+    def __init__(self, interp):
+        super().__init__(interp)
+        L = interp.L
+        self.units = {M.ONE: L.One}
+        self.dims = {(): L.Number}
+        self.prefixes = {(): L.IdentityPrefix}
+        self.tainted = set()     # op ids whose value went through mixed-base prefix arithmetic
+
+    def refs(self, op):
+        out = []
+        for v in op.values():
+            if isinstance(v, list) and len(v) >= 2 and v[0] == "r" and isinstance(v[1], int):
+                out.append(v[1])
+        return out
+
+    def bases(self, mval, kind):
+        if mval is None:
+            return set()
+        if kind == "prefix":
+            return {b for b, _ in mval}
+        if kind in ("unit", "qty"):
+            return {b for b, _ in mval[0]}
+        return set()
+
+    def check_unit(self, op, u, m, tainted, label):
+        I = self.I
+        got = I.nf_of(u)
+        if got is None:
+            I.count(self.PROP + ".identity.undescribable")
+            return None
+        if tainted or not single_base_int(m[0]):
+            # mixed bases: only the numeric scale is constrained (1e-9)
+            I.count(self.PROP + ".scale.checked")
+            if got[1] != m[1]:
+                I.violation(self.PROP + ".nf", "%s/denotes-different-product/%s" % (self.PROP, label),
+                            {"expected": M.nf_str(m), "got": M.nf_str(got)})
+                return "VIOLATED"
+            a, b = float(M.p_value(got[0])), float(M.p_value(m[0]))
+            if abs(a - b) > 1e-9 * max(abs(a), abs(b)):
+                I.violation(self.PROP + ".scale", "%s/mixed-base-scale/%s" % (self.PROP, label),
+                            {"expected": b, "got": a, "nf": M.nf_str(m)})
+                return "VIOLATED"
+            return "ok"
+        I.count(self.PROP + ".identity.checked")
+        if got != m:
+            I.violation(self.PROP + ".nf", "%s/denotes-different-product/%s" % (self.PROP, label),
+                        {"expected": M.nf_str(m), "got": M.nf_str(got)})
+            return "VIOLATED"
+        first = self.units.get(m)
+        if first is None:
+            self.units[m] = u
+            return "ok"
+        if first is not u:
+            I.violation(self.PROP + ".identity", "%s/split-identity/Unit/%s" % (self.PROP, label),
+                        {"nf": M.nf_str(m)})
+            return "VIOLATED"
+        I.probe("same-normal-form-seen-again")
+        return "ok"
+
+    def check_value(self, op, kind, value, mval, rec, label):
+        I = self.I
+        ids = self.refs(op)
+        tainted = any(i in self.tainted for i in ids)
+        bases = set()
+        for key, v in op.items():
+            if isinstance(v, list) and len(v) >= 2 and v[0] in ("r", "u", "p"):
+                pass
+        if kind in ("unit", "qty", "prefix", "pair") and mval is not None:
+            ms = [mval] if kind != "pair" else [m for m in mval if m is not None]
+            for m in ms:
+                bases |= self.bases(m, "prefix" if kind == "prefix" else "unit")
+            # operands' bases
+            for i in ids:
+                bases |= self.bases(I.mvals.get(i), (I.vals.get(i) or (None,))[0])
+        if len(bases - {0}) > 1:
+            tainted = True
+        if tainted and "id" in op:
+            self.tainted.add(op["id"])
+        out = {}
+        if kind == "unit":
+            out[self.PROP + ".identity"] = self.check_unit(op, value, mval, tainted, label)
+        elif kind == "qty":
+            out[self.PROP + ".identity"] = self.check_unit(op, value.unit, mval, tainted, label)
+        elif kind == "pair":
+            vs = [self.check_unit(op, v, m, tainted, label) for v, m in zip(value, mval) if m is not None]
+            out[self.PROP + ".identity"] = "VIOLATED" if "VIOLATED" in vs else "ok"
+        elif kind == "dim":
+            I.count(self.PROP + ".identity.checked")
+            got = M.d_norm(value.exponents)
+            if got != mval:
+                I.violation(self.PROP + ".nf", "%s/denotes-different-product/%s" % (self.PROP, label),
+                            {"expected": list(mval), "got": list(got)})
+                out[self.PROP + ".identity"] = "VIOLATED"
+            else:
+                first = self.dims.setdefault(mval, value)
+                if first is not value:
+                    I.violation(self.PROP + ".identity", "%s/split-identity/Dimension/%s" % (self.PROP, label),
+                                {"dim": list(mval)})
+                    out[self.PROP + ".identity"] = "VIOLATED"
+        elif kind == "prefix":
+            if tainted or not single_base_int(mval):
+                I.count(self.PROP + ".scale.checked")
+                try:
+                    a = float(value.quantify())
+                except OverflowError:
+                    return out
+                b = float(M.p_value(mval))
+                if abs(a - b) > 1e-9 * max(abs(a), abs(b)):
+                    I.violation(self.PROP + ".scale", "%s/mixed-base-scale/%s" % (self.PROP, label),
+                                {"expected": b, "got": a})
+                    out[self.PROP + ".scale"] = "VIOLATED"
+            else:
+                I.count(self.PROP + ".identity.checked")
+                got = M.p_norm([(value.base, Fraction(value.exponent))])
+                if got != mval:
+                    I.violation(self.PROP + ".nf", "%s/denotes-different-product/%s" % (self.PROP, label),
+                                {"expected": str(mval), "got": str(got)})
+                    out[self.PROP + ".identity"] = "VIOLATED"
+                else:
+                    first = self.prefixes.setdefault(mval, value)
+                    if first is not value:
+                        I.violation(self.PROP + ".identity", "%s/split-identity/Prefix/%s" % (self.PROP, label),
+                                    {"prefix": str(mval)})
+                        out[self.PROP + ".identity"] = "VIOLATED"
+        return {k: v for k, v in out.items() if v}
+
+
+ALGEBRA = {"u_mul", "u_div", "u_pow", "u_root", "p_mul_u", "as_ratio", "pick", "quantify", "q_bin", "q_unit",
+           "q_pow", "q_root", "unprefixed", "q_unit_of", "q_new", "d_bin", "d_pow", "d_root", "p_bin", "p_pow",
+           "p_root", "prefix_new", "derive", "define_unit", "dim_unit", "alias", "dim_derive"}
+
+
+class C02Clauses(IdentityTable):
+    PROP = "C02"
+
+    def after_op(self, op, prepared, kind, value, mval, exc, info, rec):
+        name = op["op"]
+        I = self.I
+        if rec.get("injected"):
+            return None
+        if name not in ALGEBRA and name not in ("roundtrip", "load", "convert", "parse"):
+            return None
+        if exc is not None:
+            # the model says this expression denotes a value: the library must not refuse it
+            if name in ("u_root", "q_root", "p_root", "d_root", "u_pow", "u_mul", "u_div", "p_mul_u",
+                        "d_bin", "d_pow", "p_bin", "p_pow") and prepared:
+                want = self.predict(op, prepared)
+                if want is not None and type(exc).__name__ in ("FractionalDimensionError", "TypeError",
+                                                               "KeyError", "AttributeError", "ValueError",
+                                                               "ZeroDivisionError"):
+                    # roots through mixed-base prefix arithmetic (float exponents) are outside the
+                    # same-base clause of the property: only their numeric scale is constrained
+                    m0 = prepared[0][1]
+                    pm = m0 if name == "p_root" else (m0[0] if isinstance(m0, tuple) and len(m0) == 2 else ())
+                    if not single_base_int(pm or ()) or any(i in self.tainted for i in self.refs(op)):
+                        return None
+                    I.count("C02.law.checked")
+                    I.violation("C02.law", "C02/law/refused/%s:%s" % (name, type(exc).__name__),
+                                {"op": op, "expected": str(want)})
+                    return {"C02.law": "VIOLATED"}
+            return None
+        if mval is None or name in ("convert", "parse"):
+            return None
+        return self.check_value(op, kind, value, mval, rec, name)
+
+    def predict(self, op, prepared):
+        ms = [m for _, m in prepared]
+        if any(m is None for m in ms):
+            return None
+        n = op.get("n")
+        name = op["op"]
+        try:
+            if name == "u_root":
+                return M.u_root(ms[0], n)
+            if name == "q_root":
+                return M.u_root(ms[0], n)
+            if name == "p_root":
+                return M.p_root(ms[0], n)
+            if name == "d_root":
+                return M.d_root(ms[0], n)
+            if name == "u_pow":
+                return M.u_pow(ms[0], n)
+            if name == "u_mul":
+                return M.u_mul(ms[0], ms[1])
+            if name == "u_div":
+                return M.u_div(ms[0], ms[1])
+        except Exception:
+            return None
+        return "a value"
+
+
+TABLE["C02"] = [C02Clauses]
